@@ -9,7 +9,7 @@ import nodecheck
 from nodecheck import Obs, kv, parse_msg, parse_cfg
 
 PROP = "C12"
-MODULES = ["DV.Properties.C12", "DV.Properties.C12Hist", "DV.Properties.C12Own", "DV.Properties.ConfigTie"]
+MODULES = ["DV.Properties.C12", "DV.Properties.C12Hist", "DV.Properties.C12Own", "DV.Properties.ConfigTie", "DV.Properties.C12Dpr"]
 KEEP = {"OUT": None, "CONN": ["state", "dir", "name", "live"], "PEER": ["conn", "reason", "disc"], "APP": None}
 T0 = 1700000000
 
